@@ -143,4 +143,10 @@ theorem policyPurgeForgetsOnlyWhenAllOk_expected : policyPurgeForgetsOnlyWhenAll
 
 theorem steps_engineDropSeries_expected : steps_engineDropSeries = (["e.log.Info(\"start drop series task\")", "var errs []error", "e.mu.Lock()", "defer e.mu.Unlock()", "for db, dbptInfoMap := range e.DBPartitions { for pt, dbptInfo := range dbptInfoMap { byRp := make(map[string][]*tsi.IndexBuilder) for indexId, ib := range dbptInfo.indexBuilder { if DelIndexBuilderId == indexId { continue } byRp[ib.RPName()] = append(byRp[ib.RPName()], ib) } for rp, ibs := range byRp { err := tsi.DropSeriesOfPolicy(ibs) if err != nil { e.log.Error(\"drop series failed\", zap.Uint32(\"pt\", pt), zap.String(\"db\", db), zap.String(\"rp\", rp), zap.Error(err)) errs = append(errs, err) } } } }", "if len(errs) > 0 { err := errors.Join(errs...) return err }", "e.log.Info(\"end drop series task\")", "return nil"] : List String) := by rfl
 
+/-! ### every index of a policy subtracts the policy's deleted tsids -/
+
+theorem newIndexGetsDeletedSet_expected : newIndexGetsDeletedSet = (true : Bool) := by rfl
+
+theorem src_getDeletedTSIDs_expected : src_getDeletedTSIDs = ("{ if idx.DeleteMergeSet() == nil { return &uint64set.Set{} } if deleted, ok := idx.DeleteMergeSet().deletedTSIDs.Load().(*uint64set.Set); ok && deleted != nil { return deleted } return &uint64set.Set{} }" : String) := by rfl
+
 end OG.C13.Facts
